@@ -300,6 +300,31 @@ func clip(b []byte) string {
 
 func TestC12Message(t *testing.T) { runCheck(t, "C12", genC12, execC12) }
 
+// gridC12: every (path, value) pair of the mutation grammar as a single "set" on a real one-head
+// announcement, and every path deleted, the route alternating: rare pairs (a one-character identity id, a
+// numeric clock id ...) are met for certain instead of with a probability of one in several hundred.
+func gridC12() []CaseC12 {
+	var out []CaseC12
+	n := 0
+	for _, p := range c12Paths {
+		for _, v := range append([]string{"\x00del"}, c12Values...) {
+			route := "topic"
+			if n%2 == 1 {
+				route = "direct"
+			}
+			m := MutC12{Op: "set", Path: p, Val: v}
+			if v == "\x00del" {
+				m = MutC12{Op: "del", Path: p}
+			}
+			out = append(out, CaseC12{Type: "eventlog", Route: route, Heads: 1, Repeat: 1, Muts: []MutC12{m}})
+			n++
+		}
+	}
+	return out
+}
+
+func TestC12Grid(t *testing.T) { runEnum(t, "C12", gridC12(), execC12) }
+
 // FuzzC12Message: coverage-guided bytes delivered on the topic or the direct channel (thorough tier).
 func FuzzC12Message(f *testing.F) {
 	for _, s := range c12Raw {
